@@ -13,9 +13,9 @@ OBLIGATIONS = [
     'C01.gmul_assoc', 'C01.one_gmul', 'C01.gmul_one', 'C01.left_distrib', 'C01.right_distrib',
     'C01.smul_mul', 'C01.mul_smul',
     'C01.basis_sq', 'C01.basis_anticomm', 'C01.blade_append_generator', 'C01.vector_sq',
-    'C01.fromMathlib_ι', 'C01.fromMathlib_surjective', 'C01.sigOfCl_spec', 'C01.table_contraction_is_canonical_product', 'C01.executable_product_is_canonical',
+    'C01.fromMathlib_ι', 'C01.fromMathlib_surjective', 'C01.model_is_the_clifford_algebra', 'C01.model_iso_apply_ι', 'C01.sigOfCl_spec', 'C01.table_contraction_is_canonical_product', 'C01.executable_product_is_canonical',
 ]
-PENDING = ['the arrays built by BasisBladeOrder (index_to_bitmap / bitmap_to_index mutually inverse) enter the storage-level theorem as its hypothesis and are compared with the implementation, not derived from mkLayout', 'model_iso_cliffordAlgebra: fromMathlib is proved surjective (the model is a quotient of the Clifford algebra); injectivity (dim CliffordAlgebra = 2^n, not in Mathlib) stays open']
+PENDING = ['the arrays built by BasisBladeOrder (index_to_bitmap / bitmap_to_index mutually inverse) enter the storage-level theorem as its hypothesis and are compared with the implementation, not derived from mkLayout']
 RULE = ("layouts: exhaustive {+1,-1,0}^n signatures for small n, seeded random signatures/ids/orders above; "
         "multivectors: integer/dyadic/Gaussian-integer coefficient vectors (dense, k-sparse, half-dense, big). "
         "A case is non-trivial when the layout has n>=1 and, for products, both operands are non-zero and not both scalars; "
